@@ -31,6 +31,8 @@ def gen(rng, spec):
         case = search.gen_case(rng, max_n=4, sparse=True)
         case['config']['max_step'] = rng.choice((1, 2, 3, 4, 5, 6, 8, 10, 12, 15, 20, 30, 50))
         return case
+    if r < 0.33:
+        return search.gen_case(rng, max_n=5, many_cats=True)      # category ids far beyond the tag list
     return search.gen_case(rng, max_n=7 if r < 0.5 else 5, sparse=r > 0.8)
 
 
